@@ -139,6 +139,8 @@ type FuncSpec struct {
 	Pos      string
 	Bound    bool // set when matched to an SSA function
 	NoNil    []string
+	RefinesIface string // "pkgname.Iface.Method": this method implements that interface contract ...
+	RefinesAbs   string // ... under this abstraction (absmacro set)
 	Nilable  map[string]bool // parameters that may be nil (exempt from the default non-nil precondition of the safety sweep)
 	PostUpdates []Update // ghost updates evaluated in the post-state (may mention result); applied after `updates`
 	Bridges  []Update // ghost(params) = expr over the CURRENT ghost state at return: proved equal to the declared update, then usable
@@ -171,6 +173,8 @@ type SpecFile struct {
 	Funcs  []*FuncSpec
 	Axioms []*Axiom
 	Invs   map[string][]Clause
+	GlobalInvs []string              // macro names declared `globalinv`
+	AbsMacros  map[string][]*SpecMacro // abstraction name -> macros giving the concrete meaning of ghost vars
 }
 
 // ---------- lexer ----------
@@ -185,7 +189,7 @@ type tok struct {
 var keywords = map[string]bool{
 	"requires": true, "ensures": true, "modifies": true, "updates": true, "loop": true,
 	"func": true, "fun": true, "macro": true, "ghost": true, "axiom": true, "iface": true,
-	"trusted": true, "assume": true, "defaxiom": true, "hint": true, "bridge": true, "postupdates": true, "callassert": true, "purefunc": true, "uses": true, "inv": true, "dec": true, "nonnil": true, "typeinv": true,
+	"trusted": true, "assume": true, "defaxiom": true, "hint": true, "bridge": true, "postupdates": true, "callassert": true, "purefunc": true, "uses": true, "inv": true, "dec": true, "nonnil": true, "typeinv": true, "nilable": true, "globalinv": true, "refines": true, "absmacro": true,
 }
 
 func lex(src string, line0 int, file string) ([]tok, error) {
@@ -645,6 +649,26 @@ func (p *sparser) parseFile(sf *SpecFile) {
 			p.expectOp("=")
 			body := p.expr()
 			sf.Macros = append(sf.Macros, &SpecMacro{Name: name, Params: ps, Body: body})
+		case "globalinv":
+			sf.GlobalInvs = append(sf.GlobalInvs, p.ident())
+		case "absmacro":
+			abs := p.ident()
+			name := p.ident()
+			p.expectOp("(")
+			var ps []string
+			for !p.isOp(")") {
+				ps = append(ps, p.ident())
+				if p.isOp(",") {
+					p.next()
+				}
+			}
+			p.expectOp(")")
+			p.expectOp("=")
+			body := p.expr()
+			if sf.AbsMacros == nil {
+				sf.AbsMacros = map[string][]*SpecMacro{}
+			}
+			sf.AbsMacros[abs] = append(sf.AbsMacros[abs], &SpecMacro{Name: name, Params: ps, Body: body})
 		case "axiom", "defaxiom":
 			name := p.ident()
 			p.expectOp(":")
@@ -733,6 +757,13 @@ func (p *sparser) parseClauses(fs *FuncSpec) {
 					continue
 				}
 				break
+			}
+		case "refines":
+			p.next()
+			fs.RefinesIface = p.funcKey()
+			if p.peek().k == "id" && p.peek().s == "via" {
+				p.next()
+				fs.RefinesAbs = p.ident()
 			}
 		case "nilable":
 			p.next()
